@@ -22,7 +22,7 @@ RULE = ("plan = (scenario W1 pending module-level forward refs / W2 function-loc
         "pre-emptive switch while >=2 threads are in the middle of an operation and one of them is inside an anchor function "
         "(resolve_forward_refs, apply_for, TypeRegistry.register/resolve, ...); distinct by hash of the switch-location sequence")
 ASSUMPTIONS = [
-    "pre-emption granularity is one source line of utype/ (CPython can also switch between bytecodes of one line; not explored)",
+    "pre-emption granularity is one source line of utype/; in a share of the runs (plan.bytecode) additionally every bytecode instruction of the anchor functions (resolve_forward_refs, apply_for, TypeRegistry.register/resolve, Rule/LogicalType forward-ref functions) via sys.monitoring",
     "operations that touch no shared utype state between line events (C-level dict/list operations) are atomic under the GIL",
     "oracle = some sequential order of the same operations on a fresh world, consistent with the observed invoke/return order; if sequential outcomes themselves depend on order, any consistent order is accepted",
     "at most 6 operations per run (all consistent sequential orders are tried)",
@@ -37,7 +37,7 @@ TIERS = {
     "quick": {"runs": 3200, "chunk": 40, "selftest": 32, "minimise_s": 60},
     "thorough": {"budget_s": 900, "chunk": 100, "selftest": 256, "minimise_s": 120},
 }
-PROBES = ["two_threads_in_anchor", "switch_in_resolve_forward_refs", "switch_in_registry",
+PROBES = ["two_threads_in_anchor", "switch_in_resolve_forward_refs", "switch_in_registry", "switch_between_bytecodes", "lock_contended",
           "sequential_orders_disagree", "linearized_by_non_invoke_order"]
 
 
@@ -318,6 +318,8 @@ def generate(rng, tier):
     else:
         pol = {"kind": "sequential", "seed": pseed}
     plan["schedule"] = pol
+    # a share of the runs pre-empts between the bytecodes of the anchor functions (sys.monitoring), not only between lines
+    plan["bytecode"] = rng.random() < (0.2 if tier == "quick" else 0.5)
     return plan
 
 
@@ -369,7 +371,7 @@ def execute(plan):
     pol = dict(plan["schedule"])
     if pol["kind"] == "pct":
         pol.setdefault("est", 1500 * len(ops_all))
-    sched = Scheduler(pol, nth, budget=400_000)
+    sched = Scheduler(pol, nth, budget=400_000, bytecode=bool(plan.get("bytecode")))
     programs = [[(lambda op=op: run_op(mod, op, plan["params"])) for op in ops] for ops in plan["threads"]]
     results = sched.run(programs)
     if sched.errors:
